@@ -87,7 +87,7 @@ type SignerOptions struct {
 	BackendURL string
 	ChainID    *int64 // nil: not configured, the proxy discovers it with net_version
 	Keys       []WalletKey
-	Decoys     []Decoy // further wallet entries that are listed but must never sign (see Decoy)
+	Decoys     []Decoy       // further wallet entries that are listed but must never sign (see Decoy)
 	LogLevel   string        // default "info" (the start-up confirmation reads the listening line)
 	StartWait  time.Duration // default 60 s
 }
